@@ -1,5 +1,5 @@
 """Shard lists of the SIMH grid harness per property (which profile, which bounds, which oracle prefixes)."""
-from harness.h_sim import G, R_TWO, R_THREE, R_ONE, META, FUNCTIONS
+from harness.h_sim import G, R_TWO, R_THREE, R_ONE, R_FOUR, META, FUNCTIONS
 
 PIN = {}
 ALG3 = ('queue', 'batch1', 'batch2')
@@ -81,6 +81,9 @@ def shards(tier, prop):
         out.append(G('static', RS, props, T=400, alg='dynamic', machines=[10, 20, 20], d1=2, d2=1))
         # machine ids that share their last '_'-separated token across categories
         out.append(G('static', RS, props, T=400, alg='dynamic', names=['cat0_m0', 'cat1_m0', 'cat1_m1']))
+        # machine ids one of which is a prefix of the others (m1 / m10 / m11 as in clusters of more than ten machines)
+        out.append(G('static', RS, props, T=400, alg='dynamic', names=['n1', 'n10', 'n11']))
+        out.append(G('static', RS, props, T=400, alg='dynamic', names=['n10', 'n1', 'n11']))
     elif prop == 'C01':
         for alg in ALG3:
             out.append(G('two', R_TWO, props, alg=alg))
@@ -134,6 +137,9 @@ def shards(tier, prop):
         # per-observation (min, max) reservation sizes whose minimum may exceed what is free at that moment
         out.append(G('three', R_THREE, props, alg='batchsplit', shape='free'))
         out.append(G('two', R_TWO, props, alg='batchsplit'))
+    if prop in ('C04', 'C05', 'C08', 'C13'):
+        # four observations competing for the telescope's arrays (held back, overtaken, starting late)
+        out += [G('four', R_FOUR, props, alg=a) for a in ('queue', 'batch2')]
     if prop in ('C04', 'C11', 'C12', 'C13'):
         out.append({'kind': 'py', 'module': 'vk.simh', 'fn': 'validate_fakepd', 'cond_timeout': 120, 'name': 'stub-validation:pandas'})
     out.append(twin([o for o in out if o.get('fn') == 'grid'][0]))
